@@ -598,7 +598,7 @@ Qed.
 
 Lemma step_inv c gm op : CInv c gm -> pguard c op -> CInv (snd (fstep c op)) (gstep gm op).
 Proof.
-  intros V G. destruct op as [sid d f|sid code|sid|v|sid v|uni v|md bl br un sb su| |sid ms|sid|sid k a b f|sid k|sid|sid|sid|sid k|pm md bl br un sb su];
+  intros V G. destruct op as [sid d f|sid code|sid|v|sid v|uni v|md bl br un sb su| |sid ms|sid|sid k a b f|sid k|sid|sid|sid|sid k|buni|pm md bl br un sb su];
     cbn [fstep]; try (change (gstep gm _) with gm).
   - (* send_stream_data *)
     destruct (for_send c sid) as [[c1 t]|] eqn:E; [|exact V]. destruct (for_send_inv _ _ _ _ _ V E) as (V1 & F1).
@@ -678,6 +678,7 @@ Proof.
   - (* STOP_SENDING delivery outcome *)
     destruct (find_strm sid (c_streams c)) as [t|] eqn:Ef; [|exact V]. cbn [snd].
     destruct k; [exact V|exact (CInv_upd_stop _ _ _ _ _ V Ef)].
+  - (* STREAMS_BLOCKED step *) exact V.
   - (* transport parameters, repaired function: restored from a ticket (guarded), or 0-RTT accepted (unguarded) *)
     destruct pm; cbn [pguard] in G; cbn [snd fst].
     + destruct (store_limits_keep false c (orz md 0) (orz bl 0) (orz br 0) (orz un 0) (orz sb 0) (orz su 0)) as (K1 & K2 & K3 & K4 & K5).
@@ -781,7 +782,7 @@ Qed.
 Lemma used_tracks_highest c op : forgetting op = false ->
   c_used (snd (fstep c op)) - c_used c = sum_high (c_streams (snd (fstep c op))) - sum_high (c_streams c).
 Proof.
-  intros Hfo. destruct op as [sid d f|sid code|sid|v|sid v|uni v|md bl br un sb su| |sid ms|sid|sid k a b f|sid k|sid|sid|sid|sid k|pm md bl br un sb su]; cbn [fstep].
+  intros Hfo. destruct op as [sid d f|sid code|sid|v|sid v|uni v|md bl br un sb su| |sid ms|sid|sid k a b f|sid k|sid|sid|sid|sid k|buni|pm md bl br un sb su]; cbn [fstep].
   - destruct (for_send c sid) as [[c1 t]|] eqn:E; [|cbn [snd]; lia]. destruct (for_send_sum _ _ _ _ E) as (A & B & F1).
     destruct (write (t_send t) d f) as [o s'] eqn:Ew. cbn [snd].
     assert (Hh : s_highest s' = s_highest (t_send t)) by (replace s' with (snd (write (t_send t) d f)) by (rewrite Ew; reflexivity); apply write_highest).
@@ -830,6 +831,7 @@ Proof.
     rewrite sum_upd_same by reflexivity. lia.
   - destruct (find_strm sid (c_streams c)) as [t|] eqn:Ef; [|cbn [snd]; lia]. cbn [snd].
     destruct k; cbn [with_streams c_used c_streams]; [lia|]. rewrite sum_upd_same by reflexivity. lia.
+  - cbn [snd]. lia.
   - destruct (paramsP_keep c pm md bl br un sb su Hfo) as (A & B). cbn [fstep] in A, B. rewrite A, B. lia.
 Qed.
 
@@ -848,7 +850,7 @@ Lemma used_changes_only_in_get c op : forgetting op = false -> c_used (snd (fste
   exists sid ms t, op = OGet sid ms /\ find_strm sid (c_streams c) = Some t /\
     c_used (snd (fstep c op)) = c_used c + (s_highest (snd (get_frame (t_send t) ms (Some (max_offset c t)))) - s_highest (t_send t)).
 Proof.
-  intros Hfo Hne. destruct op as [sid d f|sid code|sid|v|sid v|uni v|md bl br un sb su| |sid ms|sid|sid k a b f|sid k|sid|sid|sid|sid k|pm md bl br un sb su].
+  intros Hfo Hne. destruct op as [sid d f|sid code|sid|v|sid v|uni v|md bl br un sb su| |sid ms|sid|sid k a b f|sid k|sid|sid|sid|sid k|buni|pm md bl br un sb su].
   all: try (match goal with |- exists _ _ _, OGet _ _ = _ /\ _ => fail 1 | _ => exfalso; apply Hne; cbn [fstep] end).
   - destruct (for_send c sid) as [[c1 t]|] eqn:E; [|reflexivity]. destruct (for_send_sum _ _ _ _ E) as (A & B & F1).
     destruct (write (t_send t) d f) as [o s']. cbn [snd upd_send with_streams c_used]. exact B.
@@ -882,6 +884,7 @@ Proof.
   - destruct (negb (can_receive c sid)); [reflexivity|]. destruct (find_strm sid (c_streams c)); reflexivity.
   - destruct (find_strm sid (c_streams c)) as [t|]; [|reflexivity]. destruct (negb (t_stop t) || t_blocked t); reflexivity.
   - destruct (find_strm sid (c_streams c)) as [t|]; [|reflexivity]. destruct k; reflexivity.
+  - reflexivity.
   - exact (proj1 (paramsP_keep c pm md bl br un sb su Hfo)).
 Qed.
 
